@@ -187,6 +187,11 @@ def rand_query(rng, maxc=32):
         q["name"] = rng.choice(NAMES + ["abc%", "%bc", "a_c", "%", "g1%", "A%"])
     if rng.random() < 0.3:
         q["strand"] = rng.choice(["+", "-"])
+    if rng.random() < 0.3:
+        # a list / tuple / set of values (empty, one, several) for one or two of seqid / biotype / name
+        for k, pool in rng.sample([("biotype", BIOTYPES), ("seqid", SEQIDS), ("name", NAMES + ["g1%"])], rng.choice([1, 1, 2])):
+            n = rng.choice([0, 1, 1, 2, 3])
+            q[k] = coll(rng.choice(["list", "tuple", "set"]), sorted(set(rng.sample(pool, min(n, len(pool))))))
     if rng.random() < 0.2:
         q["attrs"] = rng.choice(["abc", "x=1", "note", "a_c", "zzz", "%%x=1"])
     if rng.random() < 0.2:
@@ -242,7 +247,11 @@ def twotable_cases():
              dict(seqid="s2", biotype="gene", name="u36", strand=None, attrs="x=1", on_aln=None, spans=[[3, 6]]),
              dict(seqid="s1", biotype="gene", name="", strand="+", attrs=None, on_aln=True, spans=[[0, 6]]),
              dict(seqid="s2", biotype="gene", name="u01", strand="-", attrs=None, on_aln=False, spans=[[0, 1]])]
-    filters = [dict(), dict(name=""), dict(seqid="s1"), dict(strand="+"), dict(attrs=""), dict(biotype="gene", seqid="s2")]
+    filters = [dict(), dict(name=""), dict(seqid="s1"), dict(strand="+"), dict(attrs=""), dict(biotype="gene", seqid="s2"),
+               dict(biotype=coll("list", [])), dict(name=coll("tuple", [])), dict(seqid=coll("set", [])),
+               dict(biotype=coll("tuple", ["gene"])), dict(name=coll("list", ["u02", "g03", "b03", "nope"])),
+               dict(seqid=coll("set", ["s1", "s2"]), biotype=coll("list", ["CDS", "exon"])),
+               dict(name=coll("set", []), seqid="s1"), dict(biotype=coll("list", ["gene", "CDS"]), strand="+")]
     qs = []
     for on in (None, True, False):
         for a in (None, 0, 2):
@@ -269,7 +278,8 @@ def subset_cases():
         for a in (None, 0, 2):
             for b in (None, 0, 3, 6):
                 for p in (True, False):
-                    for f in (dict(), dict(name=""), dict(seqid="s1"), dict(attrs="")):
+                    for f in (dict(), dict(name=""), dict(seqid="s1"), dict(attrs=""), dict(biotype=coll("list", [])),
+                              dict(name=coll("tuple", ["u02", "g03"])), dict(seqid=coll("set", ["s1"]), biotype=coll("list", ["gene", "exon"]))):
                         if a is None and b is None and not f and p:
                             continue
                         q = dict(allq, start=a, stop=b, partial=p)
@@ -551,6 +561,96 @@ def gb_model_records(mres):
             recs.append([name] + list(r[1:]))
         out.append(sorted(recs, key=repr))
     return out
+
+
+# ---- attributes= queries holding LIKE metacharacters (a literal % or _), the match in the middle of the stored text
+
+AM_STORED = ["note=GC 45% rich;x=1", "note=GC 45 percent rich;x=1", "k=a_c;y", "k=abc;y", "identity 100%", "identity 1000 bp",
+             "p=50%;q=5_0", "p=50;q=5x0;r", "plain=abc", None, "%", "x=a%b_c%d;z", "x=a-b-c-d;z", "pre 45% rich post"]
+AM_QUERIES = ["45% rich", "45%", "100%", "a_c", "5_0", "GC 45", "%", "_", "0% r", "% rich", "rich;x", "a%b_c", "b_c%d", "=a_", "0%;q",
+              "abc", "%%45%", "%%a_c%%", "nothing"]
+
+
+def am_cases():
+    """for each db class: records whose attributes hold a literal % / _ (and look-alikes without them); every query
+    string alone, with a seqid, and with a window; asked through get_features_matching, get_records_matching,
+    subset and num_matches"""
+    out = []
+    base = dict(biotype=None, seqid=None, name=None, strand=None, on_aln=None, start=None, stop=None, partial=True)
+    for kind in ("basic", "gff", "gb"):
+        ops = []
+        if kind == "gff":
+            feats = [dict(seqid=["s1", "s2"][i % 2], biotype="gene", name=f"t{i}", strand="+", attrs=a, lines=[[2 * i + 1, 2 * i + 4]])
+                     for i, a in enumerate(AM_STORED) if a is not None and "#" not in a][:8]
+            ops.append(dict(op="gff", features=feats))
+        for i, a in enumerate(AM_STORED):
+            ops.append(dict(op="add", raw=dict(seqid=["s1", "s2"][i % 2], biotype="gene", name=f"u{i}", strand="+", attrs=a,
+                                                 on_aln=False, spans=[[2 * i, 2 * i + 4]])))
+        qs = []
+        for a in AM_QUERIES:
+            qs.append(dict(base, attrs=a))
+            qs.append(dict(base, attrs=a, seqid="s1"))
+            qs.append(dict(base, attrs=a, start=0, stop=14))
+            qs.append(dict(base, attrs=a, biotype=coll("list", ["gene", "CDS"]), partial=False))
+        out.append(dict(kind=kind, ops=ops, queries=qs, block="attrmeta", attrmeta=True))
+    return out
+
+
+def am_literal(c, q):
+    """names of the records a linear scan selects when the attributes query is a plain piece of text:
+    the stored attributes CONTAIN it (letters compared without case, as everywhere in these queries)"""
+    db = oracle_rows(c)
+    a = q["attrs"]
+    return sorted(r["name"] for r in db if oracle_match(dict(q, attrs=None), r) and r["attrs"] is not None and a.lower() in r["attrs"].lower())
+
+
+def am_count_as_coded(c, q):
+    """num_matches passes attributes on without the %...% wrapping: equality, or LIKE when it holds a %"""
+    db = oracle_rows(c)
+    return sum(1 for r in db if oracle_match(dict(q, attrs=None, start=None, stop=None), r, count_only=True) and _strcond(q["attrs"], r["attrs"]))
+
+
+def am_compare(rep, cases, impl, model):
+    n = nvio = 0
+    dis = []
+    for ci, (c, ir) in enumerate(zip(cases, impl)):
+        ir = from_jsonable(ir)
+        if isinstance(ir, dict) and "exc" in ir:
+            nvio += 1
+            rep.violation(f"raised:attrmeta:{ir.get('at')}:{re.sub('[0-9]+', 'N', ir.get('msg', ''))[:60]}",
+                          dict(case=c, observed_impl=ir, broken="an attributes= query holding % or _ made the implementation raise"))
+            continue
+        mr = model[ci] if model is not None else None
+        for qi, q in enumerate(c["queries"]):
+            n += 1
+            feats, recs, _cnt, sub, cnt_attr = ir[qi]
+            obs = dict(features=sorted(f[2] for f in feats), records=sorted(r[2] for r in recs), subset=sorted(sub))
+            small = dict(c, queries=[q])
+            if mr is not None:
+                mnames = sorted(r[2] for r in mr[qi][1])
+                if any(v != mnames for v in obs.values()):
+                    dis.append(dict(key="attrmeta:model", case=small, observed_impl=jsonable(obs), model_output=jsonable(mnames)))
+            if "%%" in q["attrs"]:
+                continue   # the caller's own LIKE pattern
+            want = am_literal(c, q)
+            for op, got in obs.items():
+                missing = sorted(set(want) - set(got))
+                extra = sorted(set(got) - set(want))
+                if missing:
+                    nvio += 1
+                    rep.violation(f"attrmeta:{op}:missing-record", dict(case=small, expected_by_spec=want, observed_impl=got, missing=missing,
+                                  broken="a record whose attributes contain the queried text was not returned"))
+                elif extra:
+                    nvio += 1
+                    rep.violation("attrmeta:wildcard-extra", dict(case=small, expected_by_spec=want, observed_impl=got, extra=extra,
+                                  broken="% or _ inside the attributes= text acted as a LIKE wildcard: records not containing the text were returned"))
+            want_n = len(am_literal(c, dict(q, start=None, stop=None)))
+            if cnt_attr != want_n:
+                nvio += 1
+                key = ("attrmeta:num_matches-attributes-not-substring" if cnt_attr == am_count_as_coded(c, q) else "attrmeta:num_matches:wrong")
+                rep.violation(key, dict(case=small, expected_by_spec=want_n, observed_impl=cnt_attr,
+                              broken="num_matches(attributes=...) differs from the number of records whose attributes contain the text"))
+    return n, dis, nvio
 
 
 # ---- one GFF line -> one row (parser + naming step)
@@ -980,8 +1080,29 @@ def coq_raw_gb(seqid, f, name):
     return f"(RawGb {zstr(seqid)} {zstr(f['biotype'])} {zstr(name)} {loc_coq(f['loc'])})"
 
 
+def coll(kind, vals):
+    """a list / tuple / set query value (JSON carries the kind, the implementation runner rebuilds the object)"""
+    return dict(coll=kind, vals=list(vals))
+
+
+def is_coll(v):
+    return isinstance(v, dict) and "coll" in v
+
+
+def qval(v):
+    if v is None:
+        return "QAny"
+    if is_coll(v):
+        return "(QIn [" + ";".join(zstr(x) for x in v["vals"]) + "])"
+    return f"(QOne {zstr(v)})"
+
+
+# which rule does the source follow for % and _ inside an attributes= text? decided per run from its behaviour (am probe)
+ATTR_LIT = [False]
+
+
 def coq_query(q):
-    return (f"(mkq {ostr(q['biotype'])} {ostr(q['seqid'])} {ostr(q['name'])} {ostr(q['strand'])} {ostr(q['attrs'])} "
+    return (f"(mkql {cbool(ATTR_LIT[0])} {qval(q['biotype'])} {qval(q['seqid'])} {qval(q['name'])} {ostr(q['strand'])} {ostr(q['attrs'])} "
             f"{obool(q['on_aln'])} {oz(q['start'])} {oz(q['stop'])} {cbool(q['partial'])})")
 
 
@@ -1101,6 +1222,9 @@ def _like(p, s):
 def _strcond(qv, col):
     if qv is None:
         return True
+    if is_coll(qv):
+        # linear scan with "value in collection": nothing for the empty collection, exact strings otherwise
+        return col is not None and col in qv["vals"]
     if col is None:
         return False
     return _like(qv, col) if "%" in qv else qv == col
@@ -1157,9 +1281,13 @@ def oracle_match(q, r, count_only=False):
         return True
     if q["attrs"] is not None:
         a = q["attrs"]
-        pat = a if (a == "" or "%%" in a) else f"%{a}%"
-        if not _strcond(pat, r["attrs"]):
-            return False
+        if ATTR_LIT[0] and a != "" and "%%" not in a:
+            if r["attrs"] is None or a.lower() not in r["attrs"].lower():
+                return False
+        else:
+            pat = a if (a == "" or "%%" in a) else f"%{a}%"
+            if not _strcond(pat, r["attrs"]):
+                return False
     if r["table"] == 1 and q.get("on_aln") is not None:
         if r["on_aln"] is None or bool(r["on_aln"]) != q["on_aln"]:
             return False
@@ -1224,6 +1352,10 @@ PARTIAL = [
     "segment / point / complement / join / complement(join) -> spans, strand, start, stop; order(), bond(), a^b, a.b are not generated",
     "get_records_matching(on_alignment=False) and num_matches(on_alignment=...) on the two-table classes raise OperationalError in the "
     "unchanged source (on_alignment is not among the arguments the property names): tolerated as 'not observed', an answer is compared when given",
+    "attributes= queries: text holding % or _ is compared with the literal-containment oracle in a separate stream (attrmeta); on the "
+    "source as first read % and _ act as LIKE wildcards and num_matches does not wrap the text (finding C17-6, keys "
+    "attrmeta:wildcard-extra / attrmeta:num_matches-attributes-not-substring); the model carries both rules (q_attrs_lit), the run "
+    "decides from behaviour; num_matches(attributes=...) is compared with oracles only (not modelled)",
     "describe, biotype_counts are not covered",
     "union between a one-table self and a two-table other (result class switches) and update(seqids=...) are not exercised",
     "spec-level query theorems assume start < stop for stored rows and windows; degenerate ones are characterised by overlap_total and "
@@ -1240,7 +1372,8 @@ def classify(c, qi):
         return f"history:{'+'.join(ops)}"
     shape = ("both" if q["start"] is not None and q["stop"] is not None else
              "start" if q["start"] is not None else "stop" if q["stop"] is not None else "nowin")
-    conds = "+".join(k for k in ("biotype", "seqid", "name", "strand", "attrs", "on_aln") if q.get(k) is not None)
+    conds = "+".join(k + ("-in" if is_coll(q.get(k)) else "") for k in ("biotype", "seqid", "name", "strand", "attrs", "on_aln")
+                     if q.get(k) is not None)
     return f"query:{c['kind']}:{shape}:{'partial' if q['partial'] else 'within'}:{conds}"
 
 
@@ -1296,38 +1429,44 @@ def run(tier: str, seed: int) -> int:
     proof_broken = bool(pr["problems"])
     model_ok = not proof_broken or (terr is None and "OverlapGen" not in " ".join(pr["problems"]))
 
-    ncases = 150 if tier == "quick" else 8000
+    ncases = 150 if tier == "quick" else 5000
     if proof_broken:
         ncases *= 4  # widened search
     cases = [lattice_case("basic"), lattice_case("gff"), lattice_case("gb")] + twotable_cases() + subset_cases()
     cases += [random_case(rng) for _ in range(ncases)]
     rng_g = random.Random(seed * 7919 + 18)
-    gcases = [GB_PROBE] + gb_exhaustive_cases() + [gb_random_case(rng_g) for _ in range((60 if tier == "quick" else 5000) * (4 if proof_broken else 1))]
+    gcases = [GB_PROBE] + gb_exhaustive_cases() + [gb_random_case(rng_g) for _ in range((60 if tier == "quick" else 3000) * (4 if proof_broken else 1))]
     rng_f = random.Random(seed * 7919 + 19)
-    fcases = [GF_PROBE] + gf_exhaustive_cases() + [gf_random_case(rng_f) for _ in range((40 if tier == "quick" else 3000) * (4 if proof_broken else 1))]
+    fcases = [GF_PROBE] + gf_exhaustive_cases() + [gf_random_case(rng_f) for _ in range((40 if tier == "quick" else 2000) * (4 if proof_broken else 1))]
     rng_l = random.Random(seed * 7919 + 20)
-    glines = gl_exhaustive_lines() + [gl_random_line(rng_l) for _ in range((600 if tier == "quick" else 30000) * (4 if proof_broken else 1))]
+    glines = gl_exhaustive_lines() + [gl_random_line(rng_l) for _ in range((600 if tier == "quick" else 20000) * (4 if proof_broken else 1))]
     lcases = [dict(kind="gfflines", lines=glines[i:i + 500]) for i in range(0, len(glines), 500)]
     rng_p = random.Random(seed * 7919 + 21)
     pcases = [GP_PROBE] + [gp_random_case(rng_p) for _ in range((60 if tier == "quick" else 3000) * (4 if proof_broken else 1))]
-    impl_all = core.run_impl_sharded("c17_impl.py", cases + gcases + fcases + pcases + lcases)
+    acases = am_cases()
+    impl_all = core.run_impl_sharded("c17_impl.py", cases + gcases + fcases + pcases + lcases + acases)
     cuts = [0]
-    for part in (cases, gcases, fcases, pcases, lcases):
+    for part in (cases, gcases, fcases, pcases, lcases, acases):
         cuts.append(cuts[-1] + len(part))
-    impl, gimpl, fimpl, pimpl, limpl_raw = (impl_all[cuts[i]:cuts[i + 1]] for i in range(5))
+    impl, gimpl, fimpl, pimpl, limpl_raw, aimpl = (impl_all[cuts[i]:cuts[i + 1]] for i in range(6))
     limpl = [x for part in limpl_raw for x in (part if isinstance(part, list) else [part] * 500)][:len(glines)]
     gp_strict = isinstance(pimpl[0], list) and len(pimpl[0][0][0]) == 0
+    # is "a_c" inside attributes= a piece of text (only k=a_c matches) or a LIKE pattern (k=abc matches too)?
+    _pi = AM_QUERIES.index("a_c") * 4
+    ATTR_LIT[0] = isinstance(aimpl[0], list) and "u3" not in [r[2] for r in aimpl[0][_pi][1]] and "u2" in [r[2] for r in aimpl[0][_pi][1]]
     # does the fake-id counter run on across the files of one wildcard path?
     gf_carry = isinstance(fimpl[0], list) and len(fimpl[0][1][0][0]) == 2
     # which rule does the source follow for a name met again in a later block (see Model/AnnotDbGff.v)?
     gb_fixed = isinstance(gimpl[0], list) and len(gimpl[0][1][0]) == 1
-    model = gmodel = cdmodel = fmodel = lmodel = pmodel = None
+    model = gmodel = cdmodel = fmodel = lmodel = pmodel = amodel = None
     try:
         import concurrent.futures as _cf
 
         fidx = [i for i, r in enumerate(fimpl) if isinstance(r, list)]
         with _cf.ThreadPoolExecutor(max_workers=6) as ex:   # the six model evaluations are independent coqc runs
             f_model = ex.submit(run_model, cases)
+            f_a = ex.submit(core.coq_eval, PROP, ["Model.AnnotDb", "Model.AnnotDbRun"], "run_case", [coq_case(c) for c in acases],
+                            "list Z * list op * list query", 40, "am")
             f_cd = ex.submit(run_cd_model, cases)
             f_g = ex.submit(core.coq_eval, PROP, ["Model.AnnotDb", "Model.AnnotDbGff"], "run_blocks",
                             [gb_coq_case(c, gb_fixed) for c in gcases], "bool * list (option gline) * list Z", 80, "gb")
@@ -1339,6 +1478,7 @@ def run(tier: str, seed: int) -> int:
                             [gf_coq_case(fcases[i], fimpl[i][0], gb_fixed, gf_carry) for i in fidx],
                             "bool * bool * list (list (option gline)) * list Z", 80, "gf")
             model, cdmodel, gmodel, lmodel, pmodel, fout = (f.result() for f in (f_model, f_cd, f_g, f_l, f_p, f_f))
+            amodel = f_a.result()
         fmodel = [None] * len(fcases)
         for i, r in zip(fidx, fout):
             fmodel[i] = r
@@ -1359,6 +1499,9 @@ def run(tier: str, seed: int) -> int:
     f_loads, f_nontriv, f_dis, f_vio = gf_compare(rep, fcases, fimpl, fmodel, gb_fixed, gf_carry)
     l_n, l_spec, l_dis, l_vio = gl_compare(rep, glines, limpl, lmodel)
     p_n, p_spec, p_loose, p_dis, p_vio = gp_compare(rep, pcases, pimpl, pmodel)
+    a_n, a_dis, a_vio = am_compare(rep, acases, aimpl, amodel)
+    p_dis = p_dis + a_dis
+    nvio += a_vio
     g_dis = g_dis + cd_dis + f_dis + l_dis + p_dis
     nvio += l_vio + p_vio
     ndis += len(g_dis)
@@ -1377,10 +1520,13 @@ def run(tier: str, seed: int) -> int:
         for o in c["ops"]:
             dist[o["op"]] = dist.get(o["op"], 0) + 1
     rep.coverage.update(
-        evaluations=nq + g_loads + cd_n + f_loads + l_n + p_n, distinct_nontrivial=len(nontrivial) + g_nontriv + f_nontriv,
+        evaluations=nq + g_loads + cd_n + f_loads + l_n + p_n + a_n, distinct_nontrivial=len(nontrivial) + g_nontriv + f_nontriv,
         rule="one evaluation = one query on one database history, or one load of one GFF text with one lines_per_block; "
              "non-trivial = coordinate-window query returning >=1 record, or a GFF load in which rows without ID= sit in more than "
              "one block; lattice block: all features/windows with coordinates in -1..7 x partial x bound presence, exhaustive; "
+             "attrmeta stream: 14 stored attribute texts with literal % / _ in the middle (and look-alikes without) x 19 query texts x "
+             "{alone, +seqid, +window, +biotype list} x 3 db classes through features / records / subset / num_matches; list / tuple / set "
+             "values (empty, one, several) for seqid / biotype / name in the two-table, subset and random blocks; "
              "two-table block: on_alignment x user rows present/absent x start/stop in {None,0,k} x falsy filters x both entry points "
              "(+ count_distinct over all 27 argument shapes); subset block: subset(start/stop in {None,0,k} x allow_partial x falsy "
              "filters) on a two-table and a one-table db; "
@@ -1394,6 +1540,8 @@ def run(tier: str, seed: int) -> int:
         parent_child_lookup="exact names (notes/proposed_fixes/C17-5.diff)" if gp_strict else "LIKE '%name%' (a name inside another name matches too)",
         parent_child_queries=p_n, parent_child_queries_with_strict_oracle=p_spec, parent_child_queries_name_inside_other_name=p_loose,
         parent_child_answers_wider_than_parent_relation=len(LOOSE_EXAMPLES), parent_child_wider_example=LOOSE_EXAMPLES[:1],
+        attribute_metacharacter_queries=a_n,
+        attributes_match="text with % and _ escaped (notes/proposed_fixes/C17-6.diff)" if ATTR_LIT[0] else "LIKE pattern: % and _ inside the text are wildcards (finding C17-6)",
         gff_lines_parsed=l_n, gff_lines_with_spec_oracle=l_spec, count_distinct_evaluations=cd_n, gff_multi_file_loads=f_loads, gff_multi_file_loads_with_common_names=f_nontriv,
         gff_fake_id_counter_across_files="carried (notes/proposed_fixes/C17-4.diff)" if gf_carry else "restarts per file (finding C17-4)",
         gff_block_loads=g_loads, gff_block_loads_idless_rows_in_several_blocks=g_nontriv,
